@@ -63,10 +63,23 @@ func (n *ModifierNode) Equal(other value.Value) bool {
 		n.Right.Equal(value.Ref(o.Right))
 }
 
+// Whether the left operand of a modifier has to be parenthesised.
+// Declarations are parsed before modifiers are considered,
+// `var a = b if c` is not a modifier expression.
+func modifierOperandNeedsParens(modifier, operand ExpressionNode) bool {
+	switch operand.(type) {
+	case *VariableDeclarationNode, *ValueDeclarationNode,
+		*VariablePatternDeclarationNode, *ValuePatternDeclarationNode,
+		*ConstantDeclarationNode:
+		return true
+	}
+	return ExpressionPrecedence(modifier) > ExpressionPrecedence(operand)
+}
+
 func (n *ModifierNode) String() string {
 	var buff strings.Builder
 
-	leftParen := ExpressionPrecedence(n) > ExpressionPrecedence(n.Left)
+	leftParen := modifierOperandNeedsParens(n, n.Left)
 	rightParen := ExpressionPrecedence(n) >= ExpressionPrecedence(n.Right)
 
 	if leftParen {
@@ -200,7 +213,7 @@ func (n *ModifierIfElseNode) Equal(other value.Value) bool {
 func (n *ModifierIfElseNode) String() string {
 	var buff strings.Builder
 
-	thenParens := ExpressionPrecedence(n) > ExpressionPrecedence(n.ThenExpression)
+	thenParens := modifierOperandNeedsParens(n, n.ThenExpression)
 	if thenParens {
 		buff.WriteRune('(')
 	}
@@ -333,7 +346,7 @@ func (n *ModifierForInNode) Equal(other value.Value) bool {
 func (n *ModifierForInNode) String() string {
 	var buff strings.Builder
 
-	thenParens := ExpressionPrecedence(n) > ExpressionPrecedence(n.ThenExpression)
+	thenParens := modifierOperandNeedsParens(n, n.ThenExpression)
 	if thenParens {
 		buff.WriteRune('(')
 	}
